@@ -293,6 +293,16 @@ def cases(draw):
             else:
                 node = atoms[0] if len(atoms) == 1 else ['&'] + atoms
             nodes.append(node)
+        if ln > 1 and draw(st.integers(0, 3)) == 1:
+            # plain family on the right: trigger applied to every member
+            fa = {'n': draw(st.sampled_from(famnames)), 'o': '', 'q': '',
+                  'opt': False}
+            nodes[-1] = fa if draw(st.booleans()) else [
+                '&', fa, {'n': 'x', 'o': '', 'q': '', 'opt': False}]
+            # left side made of plain tasks below the members in the order
+            if draw(st.booleans()):
+                nodes[0] = task_atom(0, 'first')
+                del nodes[1:-1]
         chains.append(nodes)
     _dag_and_sequences(chains, fams, allowed, tasks, tprof)
     return {'fams': fams, 'chains': chains, 'pos': 'mixture'}
